@@ -103,6 +103,11 @@ func placeExec(c *Ctx, op string) {
 		ndst++
 		parent := filepath.Join(base, fmt.Sprintf("area%d", ndst))
 		os.MkdirAll(parent, 0755)
+		if ndst%4 == 1 { // a default POSIX ACL (u::rwx,g::r-x,o::---) on the directory the destination is created in: it masks
+			// the mode of whatever is created below, and is inherited by new directories
+			acl := []byte{2, 0, 0, 0, 1, 0, 7, 0, 0xff, 0xff, 0xff, 0xff, 4, 0, 5, 0, 0xff, 0xff, 0xff, 0xff, 0x20, 0, 0, 0, 0xff, 0xff, 0xff, 0xff}
+			unix.Setxattr(parent, "system.posix_acl_default", acl, 0)
+		}
 		d := filepath.Join(parent, "dst")
 		if ndst%3 == 2 && packPath == src { // the destination is named through a symlinked directory (/var/run/… on most systems); directory wares only: a plain-file ware is refused there by the copy placer (observation in DESIGN.md)
 			os.Symlink(fmt.Sprintf("area%d", ndst), parent+"-link")
@@ -119,6 +124,7 @@ func placeExec(c *Ctx, op string) {
 			os.Symlink("elsewhere", d)
 		case "foreign":
 			os.MkdirAll(d, 0700)
+			unix.Removexattr(d, "system.posix_acl_default")
 			os.WriteFile(filepath.Join(d, "oldfile"), []byte("old"), 0600)
 			os.Lchown(d, 1234, 1234)
 		}
